@@ -141,6 +141,10 @@ struct Script
   int gate_at_export = -1;
   vf::raw_atomic<int> parked{0};
   vf::raw_atomic<int> open{0};
+  // second gate, armed by the controller: the next Export call parks (used for an Export parked during Shutdown)
+  vf::raw_atomic<int> gate_next{0};
+  vf::raw_atomic<int> parked2{0};
+  vf::raw_atomic<int> open2{0};
   vf::raw_atomic<int> in_flight{0};
   vf::raw_atomic<int> exports{0};
   vf::raw_atomic<uint64_t> batch_ids{0};
@@ -182,6 +186,12 @@ static sdkcommon::ExportResult do_export(Script &s, size_t n, ItemFn item)
   {
     s.parked.store(1, std::memory_order_relaxed);
     while (!s.open.load(std::memory_order_relaxed))
+      usleep(50);
+  }
+  if (s.gate_next.load(std::memory_order_relaxed) && s.gate_next.exchange(0, std::memory_order_relaxed))
+  {
+    s.parked2.store(1, std::memory_order_relaxed);
+    while (!s.open2.load(std::memory_order_relaxed))
       usleep(50);
   }
   script_delay(s, bid);
@@ -738,6 +748,7 @@ struct Config
   bool backlog_flush           = false;  // directed scenario: flushes arrive while a multi-batch backlog is exported
   bool emit_shutdown_in_flush  = false;  // directed scenario: emit + Shutdown while a ForceFlush sits in a slow exporter flush
   bool timedout_flush          = false;  // directed scenario: a ForceFlush times out in a parked Export, then flush + burst
+  bool shutdown_gate           = false;  // directed scenario: Export parked while Shutdown is in progress, producers must return
   int extra_processors         = 0;
   unsigned yield_ppm = 0, sleep_ppm = 0, cas_ppm = 0, wake_ppm = 0;
   std::string describe() const
@@ -1466,6 +1477,14 @@ static void run_history(uint64_t seed, bool thorough)
   auto &R = vf::report();
   Rng r(seed);
   Config c = make_config(r, thorough);
+  // Directed scenario (from seeded change C01-w5-2): the exporter is parked inside an Export while a Shutdown is in
+  // progress (final drain, or the cycle Shutdown waits for); producers calling OnEnd/OnEmit meanwhile must return
+  // although the exporter - and therefore Shutdown - does not.  Decided from the seed, not from the generator
+  // stream, so that the other choices of a case stay what they were.
+  c.shutdown_gate = !c.emit_shutdown_in_flush && !c.backlog_flush && !c.timedout_flush && c.subject < 4 &&
+                    c.delay_ms <= 50 && vf::mix(seed, 0x5d6a7eULL) % 6 == 0;
+  if (c.shutdown_gate)
+    c.shutdown_mode = 0;
   auto script  = std::make_shared<Script>();
   script->seed = seed;
   unsigned em  = static_cast<unsigned>(r.below(10));
@@ -1650,6 +1669,43 @@ static void run_history(uint64_t seed, bool thorough)
           logged_produce(S, 0, next_seq[0]++);
         logged_shutdown(S, 0);  // same thread: those records were produced before Shutdown was called
         F.join();
+      }
+      if (c.shutdown_gate)
+      {
+        vf::WatchdogScope wd3(std::string("OnEnd-while-shutdown-export-blocked:") + S.name(), 60);
+        logged_flush(S, FlushSpec{4});  // idle now
+        script->gate_next.store(1, std::memory_order_relaxed);
+        uint64_t mx = vf::mix(seed, 0x77aa);
+        int k       = 1 + static_cast<int>(mx % std::min<size_t>(3, c.queue));
+        for (int i = 0; i < k; ++i)
+          logged_produce(S, 0, next_seq[0]++);
+        std::thread T([&S] { logged_shutdown(S, 0); });
+        for (int i = 0; i < 40000 && !script->parked2.load(std::memory_order_relaxed); ++i)
+          usleep(50);
+        if (script->parked2.load(std::memory_order_relaxed))
+        {
+          int np2  = 1 + static_cast<int>((mx >> 8) % 3);
+          int each = 1 + static_cast<int>((mx >> 16) % std::min<size_t>(c.queue * 2 + 2, 40));
+          std::vector<std::thread> pt;
+          std::vector<uint64_t> b2(static_cast<size_t>(np2) + 1);
+          for (int p = 1; p <= np2; ++p)
+            b2[static_cast<size_t>(p)] = next_seq[static_cast<uint64_t>(p)];
+          for (int p = 1; p <= np2; ++p)
+            pt.emplace_back([&S, p, each, &b2] {
+              for (int q = 0; q < each; ++q)
+                logged_produce(S, static_cast<uint64_t>(p), b2[static_cast<size_t>(p)] + static_cast<uint64_t>(q));
+            });
+          for (auto &t : pt)
+            t.join();  // must complete while the Export - and with it the Shutdown - is still parked
+          for (int p = 1; p <= np2; ++p)
+            next_seq[static_cast<uint64_t>(p)] += static_cast<uint64_t>(each);
+          R.count("shutdown_gate_scenarios");
+        }
+        else
+          R.count("shutdown_gate_not_reached");
+        script->gate_next.store(0, std::memory_order_relaxed);
+        script->open2.store(1, std::memory_order_relaxed);
+        T.join();
       }
       std::vector<std::thread> th;
       int np = c.producers_race_shutdown ? static_cast<int>(r.range(1, 3)) : 0;
